@@ -347,7 +347,7 @@ func c19Jobs(tier string) []Job {
 	}
 	for f := 0; f < n; f++ {
 		f := f
-		jobs = append(jobs, Job{Name: fmt.Sprintf("C19/v0/first=%d", f), Run: func(jc *JobCtx) { runC19Seq(jc, f, v0Len, true) }})
+		jobs = append(jobs, Job{Name: fmt.Sprintf("C19/v0/len%d/first=%d", v0Len, f), Run: func(jc *JobCtx) { runC19Seq(jc, f, v0Len, true) }})
 	}
 	jobs = append(jobs, Job{Name: "C19/v1/boundary", Run: func(jc *JobCtx) { runC19Boundary(jc, false) }})
 	jobs = append(jobs, Job{Name: "C19/v0/boundary", Run: func(jc *JobCtx) { runC19Boundary(jc, true) }})
